@@ -64,8 +64,8 @@ def run(tier, seed):
             for f in sorted(os.listdir(rd)):
                 if f.startswith("c02_"):
                     q = json.load(open(os.path.join(rd, f)))
-                    q["runs"] = [{"dom": d, "mode": "fb", "bwd": 1, "refine": r, "use_refined": 0, "wd": 1, "desc": 1, "th": 0}
-                                 for d in ("intervals", "split_dbm") for r in (0, 5)]
+                    q["runs"] = [{"dom": d, "mode": "fb", "bwd": 1, "refine": r, "use_refined": u, "wd": 1, "desc": 1, "th": 0}
+                                 for d in ("intervals", "split_dbm") for r in (0, 5) for u in (0, 1)]
                     ps.append(q)
         viols, merged, _ = progsound.explore(ck, "fb%d" % off, ps, runner="bwd_runner")
         count(merged)
